@@ -1101,7 +1101,7 @@ def run(ctx):
 			for relpath in files:
 				if relpath not in sites_by_file and (relpath.startswith('src/catapult/utils/') or relpath.startswith('tests/catapult/')) and rng.random() < 0.15:
 					sites_by_file.update(dict([file_sites_local(relpath, catalogue)]))
-			cases = plan_cases(ctx, catalogue, sites_by_file, ctx.scale(2000, 40000))
+			cases = plan_cases(ctx, catalogue, sites_by_file, ctx.scale(2000, 30000))
 			ctx.count('seeded:families', len(catalogue))
 			ctx.count('seeded:files-with-sites', len(sites_by_file))
 			chunks = [cases[start:start + 12] for start in range(0, len(cases), 12)]
@@ -1122,7 +1122,7 @@ def run(ctx):
 		for relpath in rng.sample(files, ctx.scale(40, 400)):
 			with open(os.path.join(base, relpath), 'rt', encoding='utf8') as infile:
 				lines.extend(line for line in infile.read().split('\n') if line.isascii())
-		lines = rng.sample(lines, min(len(lines), ctx.scale(1200, 12000)))
+		lines = rng.sample(lines, min(len(lines), ctx.scale(1200, 6000)))
 		witness_lines = [entry['witness'] for entry in entries] + [f'x {entry["witness"]} y' for entry in entries] + [f'a{entry["witness"]}b' for entry in entries]
 		witness_lines = [line for line in witness_lines if line.isascii() and '\n' not in line]
 		check_regex_correspondence(ctx, entries, lines, 'tree-lines')
@@ -1134,14 +1134,14 @@ def run(ctx):
 
 		# Lean line-rule models against the real validators, on seeded files and on conforming files
 		if ctx.driver:
-			for case, modelled in model_requests:
+			for case, modelled in model_requests[:ctx.scale(500, 1500)]:
 				answer = ctx.driver.ask(f'lint {1 if modelled["header"] else 0} {sx(modelled["text"])}')
 				ctx.count('model-lint:seeded-files')
 				if model_view(answer, entries) != modelled_view(modelled['reports'], entries):
 					ctx.fail(
 						'corr', f'{case["name"]} in {case["relpath"]}: modelled reports differ: model {model_view(answer, entries)[:6]}, '
 						f'implementation {modelled_view(modelled["reports"], entries)[:6]}', {'kind': 'seeded', 'case': case, 'model': answer[:300]})
-			for relpath in rng.sample(files, ctx.scale(60, 600)):
+			for relpath in rng.sample(files, ctx.scale(60, 300)):
 				with open(os.path.join(base, relpath), 'rt', encoding='utf8') as infile:
 					text = infile.read()
 				if not text.isascii():
